@@ -45,6 +45,12 @@ def corpus_inputs(ctx):
     out = []
     base = common.VERIF / "corpus" / "C07" / "dsdl"
     out.append(("corpus:vnet", base / "vnet", [base / "vdep"]))
+    extra = common.VERIF / "corpus" / "C07" / "extra"
+    if extra.exists():
+        for d in sorted(extra.iterdir()):
+            if (d / "meta.json").exists():
+                m = json.loads((d / "meta.json").read_text())
+                out.append((f"corpus:{d.name}", d / m["root"], [d / l for l in m["lookups"]]))
     return out
 
 
@@ -257,9 +263,6 @@ def run(ctx: common.Ctx):
 
     # ---- paired runs ----------------------------------------------------------------------------------------------------------------
     inputs = corpus_inputs(ctx) + generated_inputs(ctx, 1 if ctx.quick else 6)
-    repo_tests = common.REPO / "verification" / "nunavut_test_types" / "test0" / "regulated"
-    if not ctx.quick and repo_tests.exists():
-        inputs.append(("repo:test0/regulated", repo_tests, []))
     nopt = 2 if ctx.quick else 4
     rnd_seed = str(ctx.rng.randint(2, 2 ** 31 - 1))
     scratch = ctx.scratch
